@@ -37,7 +37,7 @@ REQUIRED = [  # entered in this process by the purity workload; the history work
     ("liquid/parser.py", "get_parser"),
     ("liquid/context.py", "RenderContext.assign"),
 ]
-MIN_COUNTERS = {"purity_renders": 300, "history_pairs": 30, "batched_probe_pairs": 1000}
+MIN_COUNTERS = {"clock_reading_renders": 50, "purity_renders": 300, "history_pairs": 30, "batched_probe_pairs": 1000}
 ASSUMPTIONS = ["time-dependent constructs (now, today, date of 'now'/'today') are excluded from probes and histories", "no template sources are reloaded"]
 
 # ------------------------------------------------------------------ snapshots
@@ -145,7 +145,46 @@ def _render_spec(spec: dict[str, Any]) -> Any:
     return o.key() if o.ok else ["err", o.err_class, drv.safe_str(o.exc).split("\n")[0][:100]]
 
 
+class _VirtualClock:
+    """A logical clock put where the date filter looks for the time (the module attribute `datetime`): every reading is one hour later
+    than the one before, and every reading is recorded."""
+
+    def __init__(self) -> None:
+        self.readings: list[datetime.datetime] = []
+        clock = self
+
+        class VDateTime(datetime.datetime):
+            @classmethod
+            def now(cls, tz=None):  # noqa: ANN001
+                t = datetime.datetime(2031, 5, 6, 7, 8, 9) + datetime.timedelta(hours=len(clock.readings))
+                clock.readings.append(t)
+                return t
+
+        import types
+
+        self.module = types.SimpleNamespace(**{k: getattr(datetime, k) for k in dir(datetime) if not k.startswith("__")})
+        self.module.datetime = VDateTime
+
+
+def _clock_job(job: dict[str, Any]) -> dict[str, Any]:
+    """Render the steps one after the other under the virtual clock; report each output with the clock readings made during that render."""
+    from liquid.builtin.filters import misc
+
+    clock = _VirtualClock()
+    if not hasattr(misc, "datetime"):
+        return {"result": ["no-clock-seam"], "memo_hits": {}}
+    misc.datetime = clock.module
+    out = []
+    for sp in job["steps"]:
+        n0 = len(clock.readings)
+        r = _render_spec(sp)
+        out.append({"out": r, "readings": [t.isoformat() for t in clock.readings[n0:]]})
+    return {"result": out, "memo_hits": {}}
+
+
 def _child_job(job: dict[str, Any]) -> dict[str, Any]:
+    if "steps" in job:
+        return _clock_job(job)
     for spec in job["history"]:
         _render_spec(spec)
     if "probes" in job:
@@ -294,6 +333,41 @@ def judge(ctx: core.Ctx, case: dict[str, Any]) -> None:
             ctx.nontrivial_hashes.add(h)
             if len(ctx.samples) < 3 and len(ctx.nontrivial_hashes) in (1, 50, 500):
                 ctx.samples.append(case)
+        return
+    if case["kind"] == "clock":
+        # "apart from the current time": what a template says about the time is the time at which it is rendered, not the time at which it
+        # (or something like it) was rendered before.  Logical clock, so no wall-clock reading decides anything.
+        if not Z:
+            raise core.Inconclusive("zygote not running")
+        Z["w"].write(json.dumps({"steps": case["steps"]}, default=repr) + "\n")
+        Z["w"].flush()
+        line = Z["r"].readline()
+        if not line:
+            raise core.Inconclusive("zygote died")
+        res = json.loads(line)["result"]
+        if res and res[0] in ("child-crash", "child-died", "no-clock-seam"):
+            raise core.Inconclusive(f"clock child failed: {res}")
+        ctx.evaluations += 1
+        ctx.count("clock_renders", len(res))
+        for i, (sp, r) in enumerate(zip(case["steps"], res)):
+            if not sp.get("reads_clock"):
+                continue
+            fmt = sp["clock_fmt"]
+            ok_values = {datetime.datetime.fromisoformat(t).strftime(fmt) for t in r["readings"]}
+            got = r["out"][1] if r["out"] and r["out"][0] == "ok" else None
+            if got is None:
+                ctx.count("clock_render_failed")
+                continue
+            ctx.count("clock_reading_renders")
+            if got.strip("[]") not in ok_values:
+                earlier = [j for j in range(i) if res[j]["out"] == r["out"]]
+                ctx.violation(
+                    "stale-clock:" + construct_of(sp["source"]),
+                    f"render #{i + 1} of {sp['source']!r} printed {got!r}; the clock was read {len(r['readings'])} time(s) during that render ({sorted(ok_values)})"
+                    + (f": it is what render #{earlier[0] + 1} printed" if earlier else ""),
+                )
+                return
+        ctx.ok((json.dumps(case["steps"], sort_keys=True, default=repr),), nontrivial=True)
         return
     if case["kind"] == "batch":
         # many (history render, probe render) pairs share two children: one runs the probes only, the other the history renders first.
@@ -593,8 +667,28 @@ def held_template_cases():
                     yield {"kind": "history", "aim": "template-object-kept-across-other-renders", "prefix": [first], "history": hist, "probe": probe}
 
 
+def clock_cases():
+    fmts = ["%H", "%Y-%m-%d %H:%M", "%H:%M:%S", "<%H>", "%j %H"]
+    for word in ("now", "today"):
+        for fmt in fmts:
+            for shape in ("[{{ 'W' | date: 'F' }}]", "{% assign t = 'W' | date: 'F' %}[{{ t }}]", "{% capture f %}F{% endcapture %}[{{ 'W' | date: f }}]", "[{{ w | date: 'F' }}]"):
+                src = shape.replace("W", word).replace("F", fmt)
+                for between in ([], ["{{ 0 | date: '%Y' }}"], ["{{ '2020-01-02' | date: '%j' }}", "{{ 86400 | date: '%H' }}", "{{ 'x' | date: '%H' }}"]):
+                    for is_async in (False, True):
+                        steps = []
+                        for k in range(3):
+                            sp = spec(src, {"w": word}, None, is_async)
+                            sp.update(reads_clock=True, clock_fmt=fmt)
+                            steps.append(sp)
+                            steps += [spec(b, {}, None, is_async) for b in between]
+                        yield {"kind": "clock", "steps": steps}
+
+
 def cases(ctx: core.Ctx):
     rng = ctx.rng("cases")
+    for gi, c in enumerate(clock_cases()):
+        if gi % ctx.nshards == ctx.shard and (ctx.tier != "quick" or gi % 3 == 0):
+            yield c
     for gi, c in enumerate(held_template_cases()):
         if gi % ctx.nshards == ctx.shard and (ctx.tier != "quick" or gi % 2 == 0):
             yield c
